@@ -93,6 +93,7 @@ type FnV struct {
 	labels   map[ast.Stmt]string
 	shared   map[types.Object]bool
 	inTask   int
+	noFunctional bool
 	autoInv  []*Clause
 	loopHid  types.Object
 	loopBind func(*State)
